@@ -408,6 +408,10 @@ class MergeData(Contract):
         for pos in (0, 1, "both"):
             for n in (1, 3):
                 yield {"whole": True, "pos": pos, "n": n}
+        # lists in which an object occurs more than once, and inputs of the smallest sizes
+        for curve in (False, True):
+            for order in ([0, 1, 0], [0, 0], [1, 0, 1, 2], [2, 2, 1], [0, 1, 2], [1, 1, 1]):
+                yield {"listed": True, "curve": curve, "order": order}
         # the same name (and type) twice on one input: both sets are data of that input and both are kept
         for gaps in ([], [1], [0, 3], [0, 1, 2, 3]):
             for kind in ("float", "integer"):
@@ -425,6 +429,8 @@ class MergeData(Contract):
 
         if case.get("dup"):
             return self._native_dup(case)
+        if case.get("listed"):
+            return self._native_listed(case)
         if case.get("whole"):
             return self._native_whole(case)
         reopen = sum(len(x) for x in case["inputs"]) % 2 == 1 or len(case["inputs"]) == 3
@@ -434,6 +440,49 @@ class MergeData(Contract):
         finally:
             if tmp:
                 shutil.rmtree(tmp, ignore_errors=True)
+
+    def _native_listed(self, case):
+        """inputs given as a list of positions into two / three objects -- an object may be listed more than
+        once (the quantifier is over lists): every listed occurrence contributes its block."""
+        import warnings
+
+        from geoh5py.objects import Curve, Points
+        from geoh5py.shared.merging import CurveMerger, PointsMerger
+        from geoh5py.workspace import Workspace
+
+        with Workspace() as ws, warnings.catch_warnings():
+            warnings.simplefilter("ignore")
+            cls, merger = (Curve, CurveMerger) if case["curve"] else (Points, PointsMerger)
+            sizes = [3, 2, 4]
+            pool = []
+            for k, n in enumerate(sizes):
+                o = cls.create(ws, vertices=np.c_[np.arange(float(n)) + 10 * k, np.zeros(n), np.zeros(n)], name=f"in{k}")
+                o.add_data({"v": {"values": np.arange(float(n)) + 100 * (k + 1)}})
+                if case["curve"]:
+                    o.add_data({"c": {"values": np.arange(float(n - 1)) + 1000 * (k + 1), "association": "CELL"}})
+                pool.append(o)
+            objs = [pool[i] for i in case["order"]]
+            before = [(np.array(o.vertices), np.array(o.get_data("v")[0].values)) for o in pool]
+            try:
+                merged = merger.merge_objects(ws, objs)
+            except Exception as exc:
+                return None if isinstance(exc, (ValueError, TypeError, AttributeError)) and "unique" in str(exc).lower() else f"merging {case} raised {type(exc).__name__}: {exc}"
+            want_xyz = np.vstack([pool[i].vertices for i in case["order"]])
+            if merged.vertices.shape != want_xyz.shape or not np.allclose(merged.vertices, want_xyz):
+                return f"merged vertices are not the listed inputs' vertices in order ({case})"
+            want_v = np.concatenate([np.arange(float(sizes[i])) + 100 * (i + 1) for i in case["order"]])
+            got_v = [np.asarray(ch.values, dtype=float) for ch in merged.children if getattr(ch, "name", None) == "v"]
+            if len(got_v) != 1 or got_v[0].shape != want_v.shape or not np.allclose(got_v[0], want_v, equal_nan=False):
+                return f"vertex data of inputs listed as {case['order']} come back as {[g.tolist() for g in got_v]}, expected {want_v.tolist()} ({case})"
+            if case["curve"]:
+                want_c = np.concatenate([np.arange(float(sizes[i] - 1)) + 1000 * (i + 1) for i in case["order"]])
+                got_c = [np.asarray(ch.values, dtype=float) for ch in merged.children if getattr(ch, "name", None) == "c"]
+                if len(got_c) != 1 or got_c[0].shape != want_c.shape or not np.allclose(got_c[0], want_c, equal_nan=False):
+                    return f"cell data of inputs listed as {case['order']} come back as {[g.tolist() for g in got_c]}, expected {want_c.tolist()} ({case})"
+            for o, (xyz, vals) in zip(pool, before):
+                if not np.array_equal(o.vertices, xyz) or not np.array_equal(o.get_data("v")[0].values, vals):
+                    return f"an input changed ({case})"
+        return None
 
     def _native_whole(self, case):
         import warnings
